@@ -117,9 +117,13 @@ type domSpec struct {
 	Name    string
 	Version eth2p0.Version
 	ZeroGVR bool
+	Zero    bool // the all-zero domain (what an unfilled domain value looks like)
 }
 
 func (d domSpec) String() string {
+	if d.Zero {
+		return "the all-zero domain"
+	}
 	s := fmt.Sprintf("%s/fork-version-%x", d.Name, d.Version[:])
 	if d.ZeroGVR {
 		s += "/zero-genesis-validators-root"
@@ -149,6 +153,9 @@ func (ch *chain) ownSpec(name string, epoch uint64) domSpec {
 
 // domainOf: domain = domain_type ++ hash_tree_root(ForkData{version, genesis_validators_root})[:28].
 func (ch *chain) domainOf(ds domSpec) (eth2p0.Domain, error) {
+	if ds.Zero {
+		return eth2p0.Domain{}, nil
+	}
 	dt, ok := ch.domainTypes[ds.Name]
 	if !ok {
 		return eth2p0.Domain{}, fmt.Errorf("unknown domain %s", ds.Name)
@@ -295,6 +302,9 @@ var mustErrorClasses = []string{
 	"other-domain/previous-fork-version", "other-domain/next-fork-version", "other-domain/other-domain-type", "other-domain/other-epoch", "other-domain/mixed",
 }
 
+// classZeroDomain is a must-error class too, built only by the concurrent first-use trial below.
+const classZeroDomain = "other-domain/zero-domain"
+
 // crossValidatorClasses: corruptions spread over SEVERAL validators of one call that all sign the
 // same object (same signing root, different group keys) with the same share indices: every
 // involved validator's list contains partials made by another validator's share of the same
@@ -359,6 +369,7 @@ func TestCheck(t *testing.T) {
 	r.Require("calls_other_domain_rejected", 800)
 	r.Require("calls_cross_validator_rejected", 500)
 	r.Require("shared_object_valid_calls_published", 150)
+	r.Require("concurrent_first_use_trials", 50)
 	r.Require("other_domain_attestation_sets_under_source_epoch_domain", 20)
 	r.Require("valid_published_attestations_source_and_target_in_different_forks", 50)
 
@@ -1144,7 +1155,7 @@ func isMustError(class string) bool {
 		}
 	}
 
-	return false
+	return class == classZeroDomain
 }
 
 func runCase(ctx context.Context, c *kit.Case, ch *chain, mon *monitor, env *clusterEnv, k kind, cursor, dtCursor *atomic.Uint64) {
@@ -1499,6 +1510,67 @@ func runCase(ctx context.Context, c *kit.Case, ch *chain, mon *monitor, env *clu
 		}
 
 		return err
+	}
+
+	// Concurrent first use of a signing domain. One Aggregator serves all validators and duties of
+	// a node, so calls overlap; the first verification for a (domain type, epoch) is the one that has
+	// to ask the beacon node. Here that first, correctly signed call is held inside its beacon-node
+	// Domain query (gate in the harness' beacon client), and while it waits a second call for ANOTHER
+	// validator arrives whose partials are genuine share signatures over the same object wrapped with
+	// the all-zero domain - what an announced-but-not-yet-filled domain value looks like. Whatever the
+	// overlap, it must be refused and nothing of it published; the first call must still succeed
+	// (seeded change C09-r8: a verifier-side domain cache handing out its zero placeholder).
+	if class == "valid" && len(env.pubs) > len(plans) && plans[0].obj != nil && rng.Intn(100) < 40 {
+		used := map[int]bool{}
+		for _, p := range plans {
+			used[p.vi] = true
+		}
+		vB := -1
+		for _, vi := range rng.Perm(len(env.pubs)) {
+			if !used[vi] {
+				vB = vi
+				break
+			}
+		}
+		idsB := randSubset(rng, env.n, env.t)
+		pB := &valPlan{vi: vB, pub: env.pubs[vB], class: classZeroDomain, obj: plans[0].obj, ids: idsB,
+			note: "genuine threshold shares of this validator over the first call's object wrapped with the all-zero domain, submitted while the first call waits for the beacon node's Domain answer"}
+		okB := true
+		for _, id := range idsB {
+			par, m, err := b.partialUnder(plans[0].obj, env.shares[vB][id-1], id, fmt.Sprintf("share %d of validator %d", id, vB), true, id, &domSpec{Zero: true})
+			if err != nil {
+				okB = false
+				break
+			}
+			pB.partials, pB.meta = append(pB.partials, par), append(pB.meta, m)
+		}
+		if okB {
+			gp := newGatePlan()
+			doneA := make(chan error, 1)
+			go func() { doneA <- execute(set, plans, class, victim, gp) }()
+			inWindow := false
+			select {
+			case <-gp.entered:
+				inWindow = true
+			case err := <-doneA: // no beacon-node domain query in this call: nothing to overlap with
+				doneA <- err
+			}
+			if inWindow {
+				_ = execute(map[core.PubKey][]core.ParSignedData{pB.pub: pB.partials}, []*valPlan{pB}, classZeroDomain, 0, nil)
+				r.Count("concurrent_first_use_trials", 1)
+				r.Seen("concurrent_first_use_kinds", k.name)
+			} else {
+				r.Count("concurrent_first_use_trials_without_domain_query", 1)
+			}
+			close(gp.release)
+			firstErrA := <-doneA
+			if inWindow && firstErrA != nil {
+				r.Count("concurrent_first_use_first_call_failed", 1)
+			}
+			c.NonTrivial(kit.Hash(k.name, env.n, "concurrent-first-use", victim, hashParts))
+
+			return
+		}
 	}
 
 	firstErr := execute(set, plans, class, victim, newPlan())
